@@ -23,6 +23,7 @@ import appboot
 import c16_http
 import mp4synth
 import mp4walk
+import urllib.parse
 
 LIB_LIMIT = 10.0
 _SEEDS = None
@@ -60,7 +61,51 @@ def seeds() -> dict:
             pos += size
         out[name] = data[:cut]
     out.update(layout_seeds())
+    out.update(shape_seeds())
     _SEEDS = out
+    return out
+
+
+def shape_seeds() -> dict:
+    """valid files of the *shapes of stored media* of harness/CHECKLIST.md section 4 (names shp_*): used unmodified
+    through every library entry point and endpoint sequence, and as seeds of the random mutations"""
+    mk = mp4synth.make_track
+    out = {}
+
+    def v(name, **kw):
+        kw.setdefault("payload_size", 24)
+        kw.setdefault("samples_per_segment", 2)
+        out["shp_" + name] = mk(kw.pop("kind", "video"), kw.pop("timescale", 1000), kw.pop("durations", [2000, 2000, 1000]),
+                                seed=700 + len(out), **kw)
+    v("two_unequal", durations=[2000, 700])                       # two segments (the minimum), short last
+    v("short_interior", durations=[2000, 500, 2000, 300])
+    v("one_long", durations=[3600000], samples_per_segment=3)     # one segment of one hour
+    v("largesize", largesize=("mdat", "moof"))
+    v("tfdt_v0", tfdt_version=0, first_decode_time=90000)
+    v("tfdt_v1", tfdt_version=1, first_decode_time=(1 << 33) + 1)
+    v("seq_from_0", start_number=0)
+    v("seq_from_7", start_number=7)
+    v("ts_1", timescale=1, durations=[2, 2, 1], samples_per_segment=1)
+    v("ts_1e7", timescale=10000000, durations=[20000000, 20000000, 10000001])
+    v("ntsc", timescale=30000, durations=[60060, 60060, 30030], samples_per_segment=[2, 2, 1])
+    v("no_mehd_moof_pssh", with_mehd=False, moof_pssh="before")
+    v("base_explicit", base="explicit")
+    v("base_implicit", base="implicit")
+    v("base_absolute", base="absolute", with_styp=True, with_sidx=True)
+    v("dur_in_tfhd", sample_durations_in="tfhd", extra_traf_box=True)
+    v("dur_in_trex", sample_durations_in="trex", trun_cto=True)
+    v("emsg_v1_first", with_emsg=2, emsg_first=True, emsg_version=1, with_sidx=True)
+    v("enc_iv16_order", kind="audio", timescale=48000, durations=[2048, 2048], encrypted=True, iv_size=16,
+      traf_order="trun,senc,piff,saiz,saio", saio_version=1, saiz_default=False, subsamples=True)
+    v("enc_moof_pssh", encrypted=True, moof_pssh=True, traf_order="senc_first")
+    # payload larger than the reader's cache window (buffersize 16384 x max_buffers 30) and a file exactly at it
+    window = 16384 * 30
+    v("over_window", durations=[2000, 2000], payload_bytes=[window + 4096, 9000])
+    at = mk("video", 1000, [2000, 2000], samples_per_segment=2, seed=790, payload_bytes=[window // 2, 6000])
+    pad = window - len(at)
+    if pad >= 8:
+        at += struct.pack(">I4s", pad, b"free") + bytes(pad - 8)
+    out["shp_at_window"] = at
     return out
 
 
@@ -416,7 +461,7 @@ class Uploader:
         del c16_http._LAST_EXC[:]
         old = c16_http.arm(c16_http.TIME_LIMIT)
         t0 = time.perf_counter()
-        js = None
+        js = text = None
         try:
             import contextlib
             with contextlib.redirect_stdout(c16_http._DEVNULL):
@@ -424,6 +469,8 @@ class Uploader:
             status = r.status_code
             if r.is_json:
                 js = r.get_json(silent=True)
+            elif label == "live-patch" and status == 200:
+                text = r.get_data(as_text=True)
             r.close()
         except c16_http.Timeout:
             status = 0
@@ -433,7 +480,8 @@ class Uploader:
         finally:
             c16_http.disarm(old)
         exc = c16_http._LAST_EXC[-1] if c16_http._LAST_EXC else None
-        return {"step": label, "status": status, "seconds": time.perf_counter() - t0, "exc": exc, "json": js}
+        return {"step": label, "status": status, "seconds": time.perf_counter() - t0, "exc": exc, "json": js,
+                "text": text}
 
     def inspect(self, data: bytes) -> list:
         """POST /media/inspect.  The view is an `async def`; without Flask's optional
@@ -513,6 +561,15 @@ class Uploader:
         steps.append(self._do("segment0", "GET", f"/stream/{self.spk}/{mfid}/segment/0"))
         steps.append(self._do("segment1", "GET", f"/stream/{self.spk}/{mfid}/segment/1"))
         steps.append(self._do("manifest", "GET", "/dash/vod/c16up/hand_made.mpd"))
+        # the live presentations of the uploaded track: SegmentTimeline, patch document named by the manifest
+        steps.append(self._do("live-timeline", "GET", "/dash/live/c16up/hand_made.mpd", query_string={"timeline": "1"}))
+        live = self._do("live-patch", "GET", "/dash/live/c16up/hand_made.mpd", query_string={"patch": "1"})
+        steps.append(live)
+        import re
+        m = re.search(r"<PatchLocation[^>]*>([^<]+)</PatchLocation>", live.get("text") or "")
+        if m:
+            u = urllib.parse.urlsplit(m.group(1).replace("&amp;", "&"))
+            steps.append(self._do("patch", "GET", u.path + ("?" + u.query if u.query else "")))
         steps.append(self._do("init", "GET", f"/dash/vod/c16up/{name}/init.m4v"))
         steps.append(self._do("media1", "GET", f"/dash/vod/c16up/{name}/1.m4v"))
         steps.append(self._do("edit-page", "GET", f"/stream/{self.spk}/{mfid}/edit"))
